@@ -78,5 +78,24 @@ def main():
     if not any("DirExact" in x for x in st2.get("impl_drift_kinds", [])):
         print("selftest: a recording without one unlink was accepted by WalImplTrace", st2.get("impl_drift_kinds"))
         return 1
-    log("selftests passed (altered reply rejected, dropped event rejected, altered metadata commit / dropped unlink noticed by WalImplTrace)")
+    # a recorded write that holds one entry frame more than the call submitted / that starts somewhere else
+    lines = open(io).read().splitlines()
+    k = max(i for i, l in enumerate(lines) if '"call":"write"' in l and '"nent":' in l and '"frames":"Z"' not in l)
+    e = json.loads(lines[k])
+    e["nent"] += 1
+    lines[k] = json.dumps(e)
+    open(badio, "w").write("\n".join(lines) + "\n")
+    n3, st3 = drift(badio)
+    if not any("WriteShape" in x for x in st3.get("impl_drift_kinds", [])):
+        print("selftest: a write holding an extra entry frame was accepted by WalImplTrace", st3.get("impl_drift_kinds"))
+        return 1
+    e["nent"] -= 1
+    e["woff"] += 1
+    lines[k] = json.dumps(e)
+    open(badio, "w").write("\n".join(lines) + "\n")
+    n4, st4 = drift(badio)
+    if not any("WriteContiguous" in x for x in st4.get("impl_drift_kinds", [])):
+        print("selftest: a write that does not start where the previous one ended was accepted by WalImplTrace", st4.get("impl_drift_kinds"))
+        return 1
+    log("selftests passed (altered reply rejected, dropped event rejected, altered metadata commit / dropped unlink / altered write noticed by WalImplTrace)")
     return 0
